@@ -1701,6 +1701,12 @@ class Authenticated(BaseClientHandler):
         copyuid = self._format_copyuid(dest_mbox, src_uid_list, dst_uid_list)
         await self.client.push(f"* OK {copyuid}\r\n")
 
+        # The copy may have queued notifications for this client (eg: when
+        # the destination is the mailbox it has selected). They must go out
+        # before the EXPUNGEs below renumber the messages they refer to.
+        #
+        await self.send_pending_notifications()
+
         # Phase 3: Re-acquire the source mailbox and expunge the moved
         # messages by their UIDs, regardless of the Deleted sequence.
         #
